@@ -612,7 +612,10 @@ func TestVerifKeys(t *testing.T) {
 		if v.held {
 			v.newGate()
 		}
-		start := strings.TrimPrefix(strings.TrimPrefix(toks[0], "h"), "start_")
+		/* "gstart_": a document the page's background load needs is withheld by the server; the keys up to the token
+		   "resync" arrive while that load is in flight and are not waited for */
+		gated := strings.HasPrefix(toks[0], "gstart_")
+		start := strings.TrimPrefix(strings.TrimPrefix(strings.TrimPrefix(toks[0], "h"), "g"), "start_")
 		target := map[string]string{"a": w.startA, "p": w.startP}[start]
 		lens := verifkit.M{}
 		for _, macro := range []string{"open_a", "open_p", "open_c", "open_bad", "feed_f", "feed_u", "bad_cmd"} {
@@ -620,7 +623,46 @@ func TestVerifKeys(t *testing.T) {
 		}
 		out.Emit(verifkit.M{"ev": "reset", "sid": sid, "start": start, "keys": toks[1:], "lens": lens})
 		var err error
-		if in.Frames && sid%2 == 0 {
+		if gated {
+			jtp.VerifSetCache(256)
+			withheld := map[string]string{"w1": "/notes/n3", "w2": "/notes/q2"}[w.id]
+			gate := make(chan struct{})
+			w.h.Gated(withheld, gate)
+			err = v.s.Subcommand("open", w.h.URL(target))
+			for waited := 0; err == nil && waited < 600; waited++ {
+				v.s.m.Lock()
+				shown := v.s.mode != loading
+				v.s.m.Unlock()
+				if shown {
+					break
+				}
+				time.Sleep(5 * time.Millisecond)
+			}
+			rest := toks[1:]
+			for len(rest) > 0 && rest[0] != "resync" {
+				tok := rest[0]
+				rest = rest[1:]
+				verifkit.Try(func() {
+					for _, b := range w.expand(tok) {
+						v.s.Update(b)
+					}
+				})
+				time.Sleep(3 * time.Millisecond)
+				out.Emit(verifkit.M{"ev": "unsettled", "k": tok})
+			}
+			close(gate)
+			w.h.Ungate(withheld)
+			wedged := !v.settle(8 * time.Second)
+			out.Emit(verifkit.M{"ev": "resync", "obs": v.observe(), "wedged": wedged})
+			v.flushFrames()
+			if len(rest) > 0 {
+				rest = rest[1:]
+			}
+			toks = append([]string{toks[0]}, rest...)
+			if wedged {
+				continue
+			}
+		} else if in.Frames && sid%2 == 0 {
 			jtp.VerifSetCache(256) /* the page must really be fetched for the gate to hold it */
 			err = v.openGated(target, 50+rng.Intn(60), 5+rng.Intn(40))
 		} else {
